@@ -65,6 +65,10 @@ pub struct Plan {
     pub reason: String,
     pub read_cap: usize,
     pub gap_ms: u64,
+    /// events fired straight behind the last byte of the close capsule (no gap): whatever the
+    /// driver still does after it has read the capsule must not be lost to them
+    #[serde(default)]
+    pub trailing_events: Vec<Ev>,
 }
 
 fn control_bytes(p: &Plan) -> Vec<u8> {
@@ -115,6 +119,7 @@ fn base_plan(seed: u64, server_under_test: bool) -> Plan {
         reason: "bye".into(),
         read_cap: 0,
         gap_ms: 10,
+        trailing_events: Vec::new(),
     }
 }
 
@@ -158,6 +163,9 @@ pub fn gen_plan(seed: u64, index: usize, _tier: Tier) -> Plan {
         p.grease_on_control = Some((rng.range(0, 1000), rng.usize(0, 40)));
     }
     p.session_prefix = rng.below(4) as u8;
+    if rng.chance_pm(350) {
+        p.trailing_events = (0..rng.usize(2, 10)).map(|_| rng.pick(&[Ev::DgramSession, Ev::WtUni, Ev::WtBidi, Ev::DgramSession, Ev::GreaseUniStream]).clone()).collect();
+    }
     let rc32 = rng.next_u64() as u32;
     p.close_code = *rng.pick(&[0u32, 1, 255, 256, 65535, 65536, u32::MAX, rc32]);
     let rl = *rng.pick(&[0usize, 1, 3, 50, 200]);
@@ -444,6 +452,13 @@ pub fn execute(plan: &Plan, trace: bool) -> Exec {
         if let Err(e) = raw.write_cut(&mut req_send, &sb, &plan.session_cuts, Some(&mut app), &mut probes).await {
             return fail("C05/raw-write-failed-session", e);
         }
+        // the session may be gone by now: delivery (or failure) of these late events is not the
+        // subject, so they are not added to what must arrive
+        let expect_so_far = std::mem::take(&mut raw.expect);
+        for ev in plan.trailing_events.iter().cloned() {
+            let _ = raw.event(ev, None).await;
+        }
+        raw.expect = expect_so_far;
         let mut problems: Vec<(String, String)> = Vec::new();
         let ended = app.wait_ended(Duration::from_secs(30)).await;
         let log = app.log.lock().unwrap();
@@ -548,7 +563,7 @@ pub fn def() -> PropertyDef {
     PropertyDef {
         id: "C05",
         scenarios: vec![Box::new(Typed(C05Raw))],
-        rule: "Each run: a scripted raw QUIC peer (client role against the real server, server role against the real client) writes its control stream (type + SETTINGS [+ GREASE frame]), the CONNECT request / response HEADERS and the session-stream bytes ([GREASE frame][unknown capsule] close capsule) in pieces; between two pieces it waits for network quiescence, performs one event (nothing, datagram for the session, datagram for another session, WebTransport uni stream, WebTransport bidi stream, GREASE frame on the control stream, GREASE uni stream, local open_uni by the application, cancellation + reissue of the pending accept calls) and waits for quiescence again. The first N runs sweep every single cut position 1..len-1 of every subject x every applicable event x both roles exhaustively (N is reported as exhaustive_prefix); the rest sample 0-3 cuts per subject with varied latencies, gaps, close codes, reasons and the 1-3 byte short-read cap. Oracle: outcome equals the unsegmented exchange: session established with the request fields intact; accept_uni, accept_bi and receive_datagram all return ApplicationClosed with exactly the capsule's code and reason within 30 s simulated; streams sent between the pieces are delivered intact. Non-trivial = at least one cut; distinct = distinct plan hashes.",
+        rule: "Each run: a scripted raw QUIC peer (client role against the real server, server role against the real client) writes its control stream (type + SETTINGS [+ GREASE frame]), the CONNECT request / response HEADERS and the session-stream bytes ([GREASE frame][unknown capsule] close capsule) in pieces; between two pieces it waits for network quiescence, performs one event (nothing, datagram for the session, datagram for another session, WebTransport uni stream, WebTransport bidi stream, GREASE frame on the control stream, GREASE uni stream, local open_uni by the application, cancellation + reissue of the pending accept calls) and waits for quiescence again; in a third of the sampled runs 2-10 such events follow the last byte of the close capsule without any gap. The first N runs sweep every single cut position 1..len-1 of every subject x every applicable event x both roles exhaustively (N is reported as exhaustive_prefix); the rest sample 0-3 cuts per subject with varied latencies, gaps, close codes, reasons and the 1-3 byte short-read cap. Oracle: outcome equals the unsegmented exchange: session established with the request fields intact; accept_uni, accept_bi and receive_datagram all return ApplicationClosed with exactly the capsule's code and reason within 30 s simulated; streams sent between the pieces are delivered intact. Non-trivial = at least one cut; distinct = distinct plan hashes.",
         assumptions: vec![
             "current-thread runtime only (the multi-thread half of the quantifier cannot be made replayable and is not claimed)",
             "hook counters (driver loop iterations between pieces, read futures dropped with partial progress) are coverage measures only, never part of the verdict",
